@@ -1,5 +1,6 @@
 """C13 — scenario options mean what they say and are applied exactly once."""
 import copy
+import os
 import itertools
 
 import numpy as np
@@ -506,6 +507,56 @@ def check_overrides_together(ctx, c):
     ctx.nontrivial_case(c)
 
 
+def stray_keys():
+    """keys a scenario file may carry besides the families the loader reads: names the two scenario READMEs list as `**key**` / `key`
+    that are not (or no longer) option families - e.g. the old name `buffer` of ratio_stocks_untouched - plus bookkeeping keys"""
+    import re
+    known = set(model.COUNTRY_FAMILIES) | set(model.FIXED) | {"scale", "NMONTHS"}
+    out = {"title", "comment", "buffer"}
+    for fn in (os.path.join("scenarios", "README.md"), os.path.join("src", "scenarios", "README.md")):
+        if os.path.exists(fn):
+            for m in re.finditer(r"(?:\*\*|`)([a-z_]{3,40})(?:\*\*|`)\s*(?::| sets )", open(fn, encoding="utf-8").read()):
+                if m.group(1) not in known:
+                    out.add(m.group(1))
+    return sorted(out)
+
+
+@st.composite
+def stray_case(draw):
+    """a drawn option dictionary plus one or two keys the loader does not read, holding values that are valid for SOME family"""
+    scale = draw(st.sampled_from(["country", "country", "global"]))
+    fam = model.COUNTRY_FAMILIES if scale == "country" else model.GLOBAL_FAMILIES
+    allv = sorted({v for vs in fam.values() for v in vs})
+    keys = draw(st.lists(st.sampled_from(stray_keys()), min_size=1, max_size=2, unique=True))
+    # the old name of a family gets values of that family now and then (that is what a user following the README would write)
+    vals = [draw(st.sampled_from(fam["ratio_stocks_untouched"]) if k == "buffer" and draw(st.booleans()) else st.sampled_from(allv)) for k in keys]
+    return dict(kind="stray", iso3=draw(gen.country()) if scale == "country" else "WOR", options=draw(gen.options(scale)), keys=keys, values=vals)
+
+
+def check_stray(ctx, c):
+    """every documented option sets exactly the constants its documentation describes - whatever else the dictionary carries"""
+    iso, o = c["iso3"], c["options"]
+    try:
+        base_c, base_tc, _ = dispatch(iso, dict(o))
+    except (AssertionError, SystemExit):
+        ctx.abort("base_rejected")
+        return
+    o2 = dict(o)
+    for k, v in zip(c["keys"], c["values"]):
+        o2[k] = v
+    try:
+        c2, tc2, _ = dispatch(iso, o2)
+    except (AssertionError, SystemExit):
+        ctx.event("stray_key_rejected")          # refusing a key it does not know is fine; silently obeying it is not
+        return
+    changed = sorted(RO.diff_keys(RO.flatten(base_c, base_tc), RO.flatten(c2, tc2)))
+    ctx.event("stray_key_" + c["keys"][0])
+    if changed:
+        ctx.fail("key-the-loader-does-not-document-changes-the-constants",
+                 "%s: adding %r changed %s" % (iso, list(zip(c["keys"], c["values"])), changed[:6]), c)
+    ctx.nontrivial_case(c)
+
+
 @st.composite
 def multi_head_case(draw):
     k = draw(st.integers(2, 5))
@@ -632,6 +683,7 @@ def shard(ctx):
           400 if thorough else 30, shrink=False, tag="bad")
     drive(ctx, override_case(), lambda c: check_override(ctx, c), 1500 if thorough else 80, shrink=False, tag="override")
     drive(ctx, multi_head_case(), lambda c: check_heads_reach_herd(ctx, c), 600 if thorough else 30, tag="heads")
+    drive(ctx, stray_case(), lambda c: check_stray(ctx, c), 1000 if thorough else 40, shrink=False, tag="stray")
     drive(ctx, multi_override_case(), lambda c: check_overrides_together(ctx, c), 1500 if thorough else 70, tag="overrides")
 
     if thorough:
@@ -690,6 +742,8 @@ def replay(case, ctx):
         check_heads_reach_herd(ctx, case)
     elif k == "overrides":
         check_overrides_together(ctx, case)
+    elif k == "stray":
+        check_stray(ctx, case)
     elif k == "rewrite_grid":
         c1, tc1, _ = dispatch(case["iso3"], copy.deepcopy(case["options"]))
         o = case["options"]
